@@ -280,6 +280,17 @@ func NeedsParentheses(e Expression, parentPrec int, right bool) bool {
 	return operandSQL(e, parentPrec, right) != exprSQL(e)
 }
 
+// OnConflictSQL and OnDuplicateKeySQL write the upsert clauses of INSERT with a leading blank
+// ("" when the clause is absent).
+func OnConflictSQL(oc *OnConflict) string {
+	if oc == nil {
+		return ""
+	}
+	return onConflictSQL(oc)
+}
+
+func OnDuplicateKeySQL(u *UpsertClause) string { return onDuplicateKeySQL(u) }
+
 // BeginsWithExists reports whether the text of e starts with EXISTS.
 func BeginsWithExists(e Expression) bool { return beginsWithExists(e) }
 
